@@ -82,6 +82,13 @@ def plan(tier, seed):
                 continue
             cases.append(dict(key=f"mpc/{fk}/skip={skip}", kind="mpc", mesh=mk, fk=fk, skip=skip, amp=0.1, seed=seed, tier=tier))
         cases.append(dict(key=f"mpc/{fk}/mixed-container", kind="mpc", mesh=mk, fk=fk, skip=(0,) * (3 if fk == "3d" else 2), amp=0.1, mixed=True, seed=seed, tier=tier))
+    # the same configurations in other unit systems (length x ls, stresses x ms): millimetre-sized soft bodies in SI, and large stiff ones
+    for units in ((1e-3, 1e-6), (1e-4, 1e-9), (1e3, 1e6)):
+        for (lab, mk, mem, fk), mat in ((("3d/hexahedron", "hexahedron", "renum", "3d"), "NeoHooke"), (("axi/quad", "quad", "renum", "axi"), "NeoHooke"), (("ps/quad", "quad", "renum", "ps"), "tt-mooney")):
+            cases.append(dict(key=f"solid/{lab}/{mem}/{mat}/amp=0.15/units={units}", kind="solid", mesh=mk, member=mem, fk=fk, mat=mat, amp=0.15, units=units, seed=seed, tier=tier, cost=2))
+        for fk, mk in (("3d", "hexahedron"), ("axi", "quad")):
+            cases.append(dict(key=f"nearly-incompressible/{fk}/{mk}/bulk=5.0/amp=0.12/units={units}", kind="ni", mesh=mk, member="renum", fk=fk, bulk=5.0, amp=0.12, units=units, seed=seed, tier=tier, cost=4))
+            cases.append(dict(key=f"pressure/{fk}/{mk}/mag=0.7/faces=one/units={units}", kind="surface", item="pressure", mesh=mk, fk=fk, mag=0.7, face="one", amp=0.1, units=units, seed=seed, tier=tier, cost=4))
     for fk, mk in (("3d", "hexahedron"), ("ps", "quad")):
         nd = 3 if fk == "3d" else 2
         for axis in range(nd):
@@ -98,7 +105,7 @@ def plan(tier, seed):
 
 
 # ----------------------------------------------------------------------------- builders
-def make_field(mk, member, fk, seed, mixed=False):
+def make_field(mk, member, fk, seed, mixed=False, scale=1.0):
     import felupe as fem
 
     if mk.startswith("lagrange"):
@@ -107,6 +114,8 @@ def make_field(mk, member, fk, seed, mixed=False):
         mesh = zoo.make(mk, member, seed)
     if fk == "axi":
         mesh = fem.Mesh(mesh.points + np.array([0.0, 0.7]), mesh.cells, mesh.cell_type)
+    if scale != 1.0:  # the same body in another length unit
+        mesh = fem.Mesh(mesh.points * scale, mesh.cells, mesh.cell_type)
     region = zoo.region(mk, mesh)
     if mixed:
         kw = dict(axisymmetric=True) if fk == "axi" else (dict(planestrain=True) if fk == "ps" else {})
@@ -139,12 +148,18 @@ def set_state(field, mesh, amp, seed, p=None, J=None):
     return h
 
 
-def material(name, region):
+def material(name, region, ms=1.0):
     import felupe as fem
     import felupe.constitution as C
 
     q, nc = region.quadrature.npoints, region.mesh.ncells
     sv = None
+    if ms != 1.0:  # another stress unit: all moduli x ms (implemented for the materials of the unit-system cases)
+        if name == "NeoHooke":
+            return fem.NeoHooke(mu=1.3 * ms, bulk=4.1 * ms), None
+        if name == "tt-mooney":
+            return fem.Hyperelastic(C.mooney_rivlin, C10=0.4 * ms, C01=0.2 * ms) & C.Volumetric(bulk=5.0 * ms), None
+        raise ValueError(name)
     if name == "NeoHooke":
         um = fem.NeoHooke(mu=1.3, bulk=4.1)
     elif name == "NeoHooke-mu":
@@ -261,7 +276,7 @@ def fd_check(c, sub, items, x, h, symmetric=None, dofs=None):
         c.trans += 4
     set_values(x, x0)
     cols = list(range(N)) if dofs is None else list(dofs)
-    scale = max(np.abs(K).max(), np.abs(Kfd).max(), 1e-12)
+    scale = max(np.abs(K).max(), np.abs(Kfd).max(), 1e-300)
     err = np.abs(K[:, cols] - Kfd[:, cols]).max() / scale
     c.traces += len(cols)
     c.states += len(cols)
@@ -313,9 +328,10 @@ def run(case):
     c = Ctx(case["key"])
     kind, seed = case["kind"], case["seed"]
     if kind == "solid":
-        mesh, region, field = make_field(case["mesh"], case["member"], case["fk"], seed)
+        ls, ms = case.get("units", (1.0, 1.0))
+        mesh, region, field = make_field(case["mesh"], case["member"], case["fk"], seed, scale=ls)
         hm = set_state(field, mesh, case["amp"], seed)
-        um, sv = material(case["mat"], region)
+        um, sv = material(case["mat"], region, ms)
         body = fem.SolidBody(um, field, statevars=sv)
         hyper = case["mat"] in ("NeoHooke", "NeoHooke-mu", "NeoHooke-bulk", "Volumetric", "NeoHookeCompressible", "LELS", "tt-mooney", "Composite", "LinearElasticPlaneStress")
         fd_check(c, "K", [body], field, 2e-5 * hm, symmetric=hyper)
@@ -340,9 +356,11 @@ def run(case):
         fd_check(c, "K", [body], field, 2e-5 * hm, symmetric=True)
         return c.result(dict(case=case["key"], unknowns=int(values_of(field).size), fieldsizes=[int(s) for s in field.fieldsizes]))
     if kind == "ni":
-        mesh, region, field = make_field(case["mesh"], case["member"], case["fk"], seed)
+        ls, ms = case.get("units", (1.0, 1.0))
+        case = dict(case, bulk=case["bulk"] * ms)
+        mesh, region, field = make_field(case["mesh"], case["member"], case["fk"], seed, scale=ls)
         hm = set_state(field, mesh, case["amp"], seed)
-        um = fem.NeoHooke(mu=1.0)
+        um = fem.NeoHooke(mu=1.0 * ms)
         body = fem.SolidBodyNearlyIncompressible(um, field, bulk=case["bulk"])
         fd_check(c, "K", [Settled(body)], field, 2e-5 * hm, symmetric=True)
         # second oracle: the checker's own mean-dilatation residual r(u) = int (dpsi/dF + K (v/V - 1) dJ/dF) : dF
@@ -366,7 +384,8 @@ def run(case):
             c.bad("settled-pressure", "cell pressures of the settled state vs K (v/V - 1)", float(e2), 0, 1e-9)
         return c.result(dict(case=case["key"], unknowns=int(values_of(field).size)))
     if kind == "surface":
-        mesh, region, field = make_field(case["mesh"], "distorted" if case["mesh"] != "hexahedron" else "renum", case["fk"], seed)
+        ls, ms = case.get("units", (1.0, 1.0))
+        mesh, region, field = make_field(case["mesh"], "distorted" if case["mesh"] != "hexahedron" else "renum", case["fk"], seed, scale=ls)
         hm = set_state(field, mesh, case["amp"], seed)
         mask = None
         if case["face"] == "one":
@@ -376,15 +395,15 @@ def run(case):
                 tw = zoo.renumber(tw, seed)
             mask = np.isclose(tw.points[:, -1] if case["fk"] != "axi" else tw.points[:, 1], tw.points[:, -1].max() if case["fk"] != "axi" else tw.points[:, 1].max())
         rb, fb = boundary_field(case["mesh"], mesh, case["fk"], field, mask)
-        body = fem.SolidBody(fem.NeoHooke(mu=1.0, bulk=2.0), field)
+        body = fem.SolidBody(fem.NeoHooke(mu=1.0 * ms, bulk=2.0 * ms), field)
         if case["item"] == "pressure":
-            load = fem.SolidBodyPressure(fb, pressure=case["mag"])
+            load = fem.SolidBodyPressure(fb, pressure=case["mag"] * ms)
         else:
             S = case["mag"] * np.array([[1.0, 0.2, 0.1], [0.2, -0.5, 0.3], [0.1, 0.3, 0.4]])
             load = fem.SolidBodyCauchyStress(fb, cauchy_stress=S)
         fd_check(c, "K", [body, load], field, 2e-5 * hm)
         fd_check(c, "K-load-only", [load], field, 2e-5 * hm)
-        if case["item"] == "pressure" and case["face"] == "one" and case["mag"] == 0.7:
+        if case["item"] == "pressure" and case["face"] == "one" and case["mag"] == 0.7 and "units" not in case:
             # call histories on ONE pressure item: every sequence (depth <= 2) over {vector, matrix} x {field at state A, field
             # at state B, no field} x {pressure argument or not} + update(): every returned vector / matrix must be
             # (current pressure) x (unit-pressure vector / matrix of a fresh item at the last state the item was given)
